@@ -105,7 +105,11 @@ func Union[T any](members ...T) Option {
 		}
 		memberTypes := make([]reflect.Type, 0, len(members))
 		for _, m := range members {
-			memberTypes = append(memberTypes, reflect.TypeOf(m))
+			memberType := reflect.TypeOf(m)
+			if memberType == nil {
+				return fmt.Errorf("union: nil member for union type %s", unionType)
+			}
+			memberTypes = append(memberTypes, memberType)
 		}
 		p.unionDefs = append(p.unionDefs, unionDef{unionType, memberTypes})
 		return nil
